@@ -139,7 +139,7 @@ pub fn k1(dir: &str, thorough: bool, seed: u64) {
     // the character-class facts the lexer theorems assume (`Lex.CharsOK`), checked against Rust's std for every scalar value
     {
         let specials = ['~', '&', '|', '^', '=', '<', '>', '!', '@', '\\', '(', ')', '{', '}', '%', ':', ' '];
-        let letters = ['T', 'r', 'u', 'e', 'F', 'a', 'l', 's', 'X', 'G', 'U', 'W', 'E', 'A', 'i', 'n', 'V', '3', 'x', 'v'];
+        let letters = ['T', 'r', 'u', 'e', 'F', 'a', 'l', 's', 'X', 'G', 'U', 'W', 'E', 'A', 'i', 'n', 'V', '3', 'x', 'v', 't', 'f', 'o', 'b', 'd', 'j', 'm', 'p'];
         let mut ok = true;
         for u in 0..=0x10FFFFu32 {
             if let Some(c) = char::from_u32(u) {
